@@ -696,6 +696,8 @@ func RunPullProgram(p *Program) *Result {
 			w.Res.logf("advance %s", s.D)
 		case "pullrace":
 			w.RaceStep(s)
+		case "faultretry":
+			w.FaultRetry(s)
 		case "reload":
 			w.Res.Ops++
 			if err := writeFile(w.cfgPath, []byte(s.NewSpec.Render())); err != nil {
@@ -737,6 +739,99 @@ func RunPullProgram(p *Program) *Result {
 // ---- generator ---------------------------------------------------------------
 
 var pullTokenVariants = []string{"ok_route", "ok_route", "ok_route", "ok_last", "other_route", "none", "basic", "empty", "prefix", "suffix", "case", "lower_scheme", "raw", "two_values", "trailing_word", "trailing_token", "trailing_scheme", "leading_word"}
+
+// FaultRetry: a single-lease ack / nack / dead-letter whose store call fails once (a transient store error:
+// locked database, I/O error), and the consumer's retry of the same request. The failed attempt must not be
+// answered as a success and changes nothing; the retry is judged like any call - if the lease is still the
+// message's current, unexpired lease it settles the message now (C04, C05: a nack that was acknowledged puts the
+// message back with its delay; nothing stays hidden behind an answer that was never true).
+func (w *PullWorld) FaultRetry(s Step) {
+	prs := w.pullRoutes()
+	if len(prs) == 0 || len(w.leases) == 0 {
+		return
+	}
+	ref := s.Batch
+	if ref < 0 {
+		ref = -ref
+	}
+	id := w.leases[len(w.leases)-1-ref%len(w.leases)]
+	r := prs[0]
+	if x := w.Model.findLease(id); x != nil {
+		for _, c := range prs {
+			if c.Path == x.Route {
+				r = c
+			}
+		}
+	}
+	toks := w.allowlist(r)
+	hdrs := []KV{{"Authorization", "Bearer " + toks[0]}, {"Content-Type", "application/json"}}
+	body := map[string]any{"lease_id": id}
+	kind, op, key, method, delay, reason := "ack", opAck, "ack", "Ack", time.Duration(0), ""
+	switch s.Reason {
+	case "nack":
+		kind, op, key, method, delay = "nack", opNack, "nack", "Nack", 5*time.Second
+		body["delay"] = "5s"
+	case "dead":
+		kind, op, key, method, reason = "nack", opDead, "nack", "MarkDead", "worker_gave_up"
+		body["dead"], body["reason"] = true, reason
+	}
+	b, _ := json.Marshal(body)
+	loc := "pull/faultretry/" + s.Reason
+	now := w.Clock.Peek()
+	w.Res.Ops++
+	send := func() int {
+		req, _ := NewRequest("POST", r.PullPath+"/"+kind, "pull.internal", "10.9.9.9:5", hdrs, b)
+		return w.Do("pull", w.Pull, req).Status
+	}
+	w.storeFaults[method] = 1
+	st1 := send()
+	if w.Res.Trouble != "" {
+		return
+	}
+	consumed := w.storeFaults[method] == 0
+	delete(w.storeFaults, method)
+	w.Res.logf("pull faultretry %s first -> %d (store call failed: %v)", s.Reason, st1, consumed)
+	if !consumed {
+		// answered without asking the store (blank, unknown, or the idempotent duplicate): an ordinary call,
+		// left to the ordinary steps
+		return
+	}
+	w.Res.probe("pull.faultretry.fired")
+	if st1 >= 200 && st1 < 300 {
+		w.add("C05.pull.fault.acknowledged", "C05,C04,C01", loc, "%s whose store call failed was answered %d", s.Reason, st1)
+	}
+	if items, err := w.Listing(); err == nil {
+		w.addAll(w.Model.CompareListing(now, "pull "+s.Reason+" with a failed store call", items), loc)
+	}
+	st2 := send()
+	if w.Res.Trouble != "" {
+		return
+	}
+	idem := false
+	if t, ok := w.recent[id+"/"+key]; ok && now.Sub(t) < 2*time.Minute {
+		idem = true
+	}
+	cls := "idempotent"
+	if !idem {
+		cls = w.Model.applyLease(now, op, id, delay, reason)
+	}
+	w.Res.logf("pull faultretry %s retry -> %d (%s)", s.Reason, st2, cls)
+	switch {
+	case idem:
+	case cls == "ok":
+		w.recent[id+"/"+key] = now
+		if st2 != 204 && st2 != 200 {
+			w.add("C04.pull.status", "C04,C05", loc, "retry of a %s of a current, unexpired lease after a failed store call answered %d", s.Reason, st2)
+		}
+	default:
+		if st2 >= 200 && st2 < 300 {
+			w.add("C04.pull.stale_success", "C04", loc, "retry of a %s of a lease that is %s answered %d", s.Reason, cls, st2)
+		}
+	}
+	if items, err := w.Listing(); err == nil {
+		w.addAll(w.Model.CompareListing(now, "pull "+s.Reason+" retried after a failed store call", items), loc)
+	}
+}
 
 // RaceStep: the same single-lease ack or nack is sent two or three times at
 // once over HTTP - a consumer that retries while its first attempt is still in
@@ -997,6 +1092,10 @@ func GenPullProgram(t *rapid.T, authHeavy bool) *Program {
 			p.Steps = append(p.Steps, Step{Op: "pull", Batch: len(sys.Ops) - 1})
 		case k == 16 && rapid.IntRange(0, 1).Draw(t, "race?") == 0:
 			// two or three copies of one ack / nack in flight at once, of a recent or an older (stale) lease
+			if rapid.IntRange(0, 2).Draw(t, "faultretry?") == 0 {
+				p.Steps = append(p.Steps, Step{Op: "faultretry", Reason: rapid.SampledFrom([]string{"ack", "nack", "nack", "dead"}).Draw(t, "fr.kind"), Batch: rapid.SampledFrom([]int{0, 0, 0, 1, 2}).Draw(t, "fr.ref")})
+				continue
+			}
 			st := Step{Op: "pullrace", Reason: rapid.SampledFrom([]string{"ack", "ack", "nack"}).Draw(t, "pr.kind"), Batch: rapid.SampledFrom([]int{0, 0, 1, 2, 3}).Draw(t, "pr.ref"), Pad: rapid.IntRange(0, 3).Draw(t, "pr.three") == 3}
 			type seg struct{ who, n int }
 			segs := rapid.SliceOfN(rapid.Custom(func(t *rapid.T) seg {
